@@ -481,12 +481,15 @@ func init() {
 			o.structLayout(z, s[0], s[1])
 			o.fcStructIndex(z, s[0], s[1])
 		}
-		fl := map[string]string{"size": "size", "end.Signature": "end_sig", "end.TotalCDCount": "end_count", "end.CDSize": "end_cdsize",
+		fl := map[string]string{"size": "size", "pos": "pos", "end.Signature": "end_sig", "end.TotalCDCount": "end_count", "end.CDSize": "end_cdsize",
 			"end.CDOffset": "end_cdoffset", "loc64.Signature": "loc_sig", "end64.Signature": "end64_sig"}
 		fd := func(name, params, ret string) funcSpec {
 			return funcSpec{dir: z, recv: "", name: "FindDirectory", coqName: name, params: params, retType: ret, leaves: fl}
 		}
 		o.exprOfAssign(fd("zip_find_pos", "(size : Z)", "Z"), "pos", 0)
+		o.condOf(fd("zip_find_short", "(pos size : Z)", "bool"), "if:pos")
+		o.fcSliceLow(fd("zip_find_short_skip", "(pos : Z)", "Z"), "endb")
+		o.exprOfAssign(fd("zip_find_short_pos", "", "Z"), "pos", 1)
 		o.condOf(fd("zip_no_end_record", "(end_sig : Z)", "bool"), "end.Signature")
 		o.condOf(fd("zip_needs_zip64", "(end_count end_cdsize end_cdoffset : Z)", "bool"), "end.TotalCDCount")
 		o.condOf(fd("zip_no_locator", "(loc_sig : Z)", "bool"), "loc64.Signature")
